@@ -13,3 +13,5 @@ import (
 func (*routerCore) verifTrace(context.Context, string, string, sharing.ID, []byte) {}
 
 func (*routerCore) verifGate(context.Context, string) {}
+
+func (*routerCore) verifCall(ctx context.Context, _ string, _ []sharing.ID) context.Context { return ctx }
